@@ -190,6 +190,22 @@ def extra_forms():
     for oi, lst in enumerate(([sh0, sh1], [sh1, sh0], [sh0, sh2, sh1])):
         out.append(Case("c11xo%d" % oi, wrap("anyOf", lst), docs_of([{"id": "ab"}, {"id": "abcdefgh", "token": "t"}], [{"kind": "k"}, {"token": "t"}, {}]), fam="anyOf/shared-property"))
     out.append(Case("c11x99", wrap("anyOf", anyl), docs_of([{"x": 1}, {"y": "ab"}], [{}, {"x": 0}, {"y": "a"}]), fam="anyOf/nullable-object-first"))
+    # the same shared-property groups where the generator meets them by another road than a property: as a definition of their own (no `type`
+    # beside the anyOf), as the items of an array definition, as the values of a map - a document that satisfies the first member only is accepted
+    # (what a composite-only definition rejects is the recorded finding C11-untyped-composite-ref: only the accepted side is judged there)
+    for oi, lst in enumerate(([sh0, sh1], [sh1, sh0], [sh0, sh2, sh1])):
+        goods, bads = [{"id": "ab"}, {"id": "abcdefgh", "token": "t"}], [{"kind": "k"}, {"token": "t"}, {}]
+        root = {"type": "object", "$defs": {"Contact": {"anyOf": lst}, "Contacts": {"type": "array", "items": {"anyOf": lst}}},
+                "properties": {"c": {"$ref": "#/$defs/Contact"}, "cs": {"$ref": "#/$defs/Contacts"}, "m": {"type": "object", "additionalProperties": {"anyOf": lst}}}}
+        ds = []
+        for g in goods:
+            ds.append({"doc": {"c": g}, "cls": "all-branches", "path": ("c",)})
+            ds.append({"doc": {"cs": [g, goods[0]]}, "cls": "all-branches", "path": ("cs", 0)})
+            ds.append({"doc": {"m": {"k": g}}, "cls": "all-branches", "path": ("m", "k")})
+        for b in bads:
+            ds.append({"doc": {"cs": [goods[0], b]}, "cls": "branch-violated-item", "path": ("cs", 1)})
+            ds.append({"doc": {"m": {"k": b}}, "cls": "branch-violated-item", "path": ("m", "k")})
+        out.append(Case("c11xp%d" % oi, root, ds, fam="anyOf/shared-property-other-positions"))
     return out
 
 
